@@ -285,7 +285,8 @@ static void once_caller(OnceScen& s, CallerRec& me) {
         }
     }
     if (me.ok && me.repeat_after) {      // fast path: once_body would report invoked-after-completion
-        tbb::collaborative_call_once(*s.flag.load(RLX), fn);
+        try { tbb::collaborative_call_once(*s.flag.load(RLX), fn); }
+        catch (...) { fail("c19.once.invoked-after-completion", "a call made after the function had completed threw (the function was run again)"); }
         if (s.payload != s.expected_payload()) fail("c19.once.effects-not-visible", "second call of caller " + std::to_string(me.idx) + " does not see the value written by the function");
         me.repeat_done = true;
     }
